@@ -28,7 +28,9 @@ def run(tier, rep):
         "the specification's semantics for it is cross-checked against the real engine on every replayed case (antchfx evaluates x//n as descendant-or-self)",
         "JSON documents in the exhaustive part are objects with unique keys and string scalars (arrays appear in C08)",
     ]
-    jobs = [("N=2", dict(N=2, MaxSteps=2, Part=0, Parts=1, EmitMod=1)), ("N=3", dict(N=3, MaxSteps=2, Part=0, Parts=1, EmitMod=1))]
+    jobs = [("N=2", dict(N=2, MaxSteps=2, Part=0, Parts=1, EmitMod=1)), ("N=3", dict(N=3, MaxSteps=2, Part=0, Parts=1, EmitMod=1)),
+            # a candidate that may be rejected, followed by a container whose candidates lie deeper (8 nodes, every naming)
+            ("nested", dict(N=8, MaxSteps=2, Part=0 if thorough else 1, Parts=1, EmitMod=1, Family='"nested"'))]
     if thorough:
         jobs += [("N=4 part %d/5" % p, dict(N=4, MaxSteps=2, Part=p, Parts=5, EmitMod=8)) for p in range(5)]
         jobs += [("N=3,steps<=3", dict(N=3, MaxSteps=3, Part=0, Parts=1, EmitMod=6))]
@@ -37,6 +39,7 @@ def run(tier, rep):
         name, c = job
         consts = {k: str(v) for k, v in c.items()}
         consts.update(AnyNode="FALSE", EmitCases="TRUE")
+        consts.setdefault("Family", '"all"')
         return name, vlib.tlc("MC_StreamSelect", "MC_StreamSelect.cfg", consts=consts, timeout=3400, workers=4 if thorough else 8)
 
     with ThreadPoolExecutor(max_workers=4) as ex:
